@@ -140,6 +140,9 @@ def rewrite_imports(source_code: str, mapping: MappingType) -> Union[str, None]:
     # split on "\n", "\r" and "\r\n" only, like the parser does when it numbers lines
     # (str.splitlines also breaks on form feeds and Unicode separators inside literals)
     lines = io.StringIO(source_code, newline="").readlines()
+    line_offsets = [0]
+    for line in lines:
+        line_offsets.append(line_offsets[-1] + len(line))
     tree = ast.parse(source_code)
     replacements = []
 
@@ -172,19 +175,24 @@ def rewrite_imports(source_code: str, mapping: MappingType) -> Union[str, None]:
                 names_str = ', '.join(unmapped_names)
                 replacement_lines.append(f'from {module} import {names_str}\n')
 
-            # Get line numbers
+            # Get the span of the statement itself (ast columns are UTF-8 byte offsets),
+            # so that whatever shares its physical lines (`a = 1; from x import y`) is kept
             start_line = node.lineno - 1  # Convert to 0-based index
             end_line = getattr(node, 'end_lineno', node.lineno) - 1
-            replacements.append((start_line, end_line, replacement_lines))
+            start_col = len(lines[start_line].encode()[:node.col_offset].decode())
+            end_col = len(lines[end_line].encode()[:node.end_col_offset].decode())
+            start = line_offsets[start_line] + start_col
+            end = line_offsets[end_line] + end_col
+            replacements.append((start, end, ''.join(replacement_lines).rstrip('\n')))
 
     if len(replacements) == 0:
         return None
 
-    # Apply replacements in reverse order to maintain line indices
-    for start_line, end_line, replacement_lines in reversed(replacements):
-        lines[start_line:end_line+1] = replacement_lines
+    # Apply replacements in reverse order to maintain offsets
+    for start, end, replacement in reversed(replacements):
+        source_code = source_code[:start] + replacement + source_code[end:]
 
-    return ''.join(lines)
+    return source_code
 
 
 def process_file(filepath: str, mapping: MappingType) -> None:
